@@ -179,8 +179,14 @@ func init() {
 		ssec, csec := a[0].W, a[1].W
 		socketace.HandshakeTimeout = 1500 * time.Millisecond
 		hits := 0
+		scert, must := "none", false
+		if len(a) > 2 {
+			// c05s <s> <c> <server certificate> <client requires security 0/1>: the packets are AES-encrypted by the shared secret, yet the
+			// carrier does not count as encrypted: the server offers StartTLS and the session is upgraded
+			scert, must = a[2].W, a[3].I == 1
+		}
 		s := server.NewPacketServer()
-		s.ServerConfig = *serverCfg("none", false)
+		s.ServerConfig = *serverCfg(scert, false)
 		if ssec == "none" {
 			s.Address = addr.MustParseAddress("udp://127.0.0.1:0")
 		} else {
@@ -195,7 +201,7 @@ func init() {
 		if csec != "none" {
 			url = "udp://u:" + csec + "@localhost:" + port
 		}
-		ups := &upstream.Upstreams{Data: []upstream.Upstream{mkUpstream(url)}}
+		ups := &upstream.Upstreams{Data: []upstream.Upstream{mkUpstream(url)}, MustSecure: must}
 		ch := make(chan []Tok, 1)
 		go func() {
 			st, err := ups.Connect(cfgGetter{clientCfg("none", true, true)}, "echo")
@@ -203,6 +209,7 @@ func init() {
 				ch <- []Tok{TW("connect"), TW("err")}
 				return
 			}
+			tech := upstreamTech(ups.Data[0])
 			st.Write([]byte("MARKER-0123456789"))
 			buf := make([]byte, 17)
 			done := make(chan bool, 1)
@@ -213,7 +220,11 @@ func init() {
 			case <-time.After(3 * time.Second):
 			}
 			st.Close()
-			ch <- []Tok{TW("connect"), TW("ok"), TW("echo"), TBool(echo)}
+			r := []Tok{TW("connect"), TW("ok"), TW("echo"), TBool(echo)}
+			if len(a) > 2 {
+				r = append(r, TW("tech"), TW(tech))
+			}
+			ch <- r
 		}()
 		var out []Tok
 		select {
@@ -266,6 +277,31 @@ func init() {
 		}
 		return []Tok{TW("A"), ra, TW("B"), rb}
 	})
+}
+
+// upstreamTech: what protects the session according to the client ("none", "underlying" = the carrier, "tls")
+func upstreamTech(u upstream.Upstream) string {
+	var c interface{} = u
+	for i := 0; i < 12; i++ {
+		if s, ok := c.(interface{ SecurityTech() string }); ok {
+			return s.SecurityTech()
+		}
+		switch v := c.(type) {
+		case *upstream.Socket:
+			c = v.Connection
+		case *upstream.Http:
+			c = v.Connection
+		case *upstream.Packet:
+			c = v.Connection
+		case *upstream.InputOutput:
+			c = v.Connection
+		case interface{ Unwrap() net.Conn }:
+			c = v.Unwrap()
+		default:
+			return "unknown"
+		}
+	}
+	return "unknown"
 }
 
 // upstreamSecure digs the socketace.ClientConnection out of the wrappers and asks it.
